@@ -1,7 +1,9 @@
 (* C08 - processing with --all equals processing each file on its own. Statements only. *)
 From Coq Require Import String.
 From Verif Require Import Base.Str Base.Outcome Model.RuleId Model.Update Model.Renumber Model.Cli Model.Assembler Model.CmdLine.
-From Verif Require Import Proofs.CliProofs Proofs.AssemblerProofs.
+From Coq Require Import Permutation.
+From Verif Require Import Model.CliInst Gen.Consts.
+From Verif Require Import Proofs.CliProofs Proofs.AssemblerProofs Proofs.CliOrderProofs Proofs.CliInstProofs Proofs.RoundTripProofs Proofs.UpdateCommuteProofs.
 From Verif Require Tie.Pin_lits_cmd_regex_update_performUpdate Tie.Pin_lits_cmd_regex_compare_performCompare Tie.Pin_lits_cmd_regex_format_processAll Tie.Pin_lits_cmd_regex_update_runAssemble Tie.Pin_lits_regex_operators_assembler_Operator_Run Tie.Pin_lits_regex_operators_operators_NewProcessorStack Tie.Pin_RuleIdFileNameRegex_src.
 Open Scope N_scope.
 
@@ -29,3 +31,107 @@ Theorem C08_update_all_touches_rules_files_only :
 Proof. exact update_all_frame. Qed.
 Print Assumptions C08_update_all_touches_rules_files_only.
 
+
+(* ---------- whole commands on the tree model: "each file on its own, in any order" ---------- *)
+
+(* renumber-tests --all: every selected test file ends exactly as renumbering it alone leaves it ... *)
+Theorem C08_renumber_all_is_each_file_alone :
+  forall renum files t p id c, NoDup files -> In p files -> renumber_selected p = Some id -> t_get t p = Some c ->
+  t_get (renumber_all renum files t) p = Some (renum id c).
+Proof. exact renumber_all_is_each_alone. Qed.
+Print Assumptions C08_renumber_all_is_each_file_alone.
+
+(* ... and the whole resulting tree is the same for every order in which the walk presents the files *)
+Theorem C08_renumber_all_order_independent :
+  forall renum files files' t, Permutation files files' -> renumber_all renum files t = renumber_all renum files' t.
+Proof. exact renumber_all_order_independent. Qed.
+Print Assumptions C08_renumber_all_order_independent.
+
+Theorem C08_copyright_all_is_each_file_alone :
+  forall copyr files t p c, NoDup files -> In p files -> copyright_selected p = true -> t_get t p = Some c ->
+  t_get (copyright_all copyr files t) p = Some (copyr c).
+Proof. exact copyright_all_is_each_alone. Qed.
+Print Assumptions C08_copyright_all_is_each_file_alone.
+
+Theorem C08_copyright_all_order_independent :
+  forall copyr files files' t, Permutation files files' -> copyright_all copyr files t = copyright_all copyr files' t.
+Proof. exact copyright_all_order_independent. Qed.
+Print Assumptions C08_copyright_all_order_independent.
+
+(* format --all: a successful run gives the same tree for every order of the walk; a failing run fails in every order *)
+Theorem C08_format_all_order_independent :
+  forall fmt files files' t t', NoDup files -> Permutation files files' ->
+  format_all fmt files t = (t', Success) -> format_all fmt files' t = (t', Success).
+Proof. exact format_all_order_independent. Qed.
+Print Assumptions C08_format_all_order_independent.
+
+Theorem C08_format_all_failure_order_independent :
+  forall fmt files files' t t1, NoDup files -> Permutation files files' ->
+  format_all fmt files t = (t1, Fail) -> exists t2, format_all fmt files' t = (t2, Fail).
+Proof. exact format_all_failure_order_independent. Qed.
+Print Assumptions C08_format_all_failure_order_independent.
+
+(* compare --all reports, in walk order, exactly the verdict each file gets on its own ... *)
+Theorem C08_compare_all_is_each_file_alone :
+  forall gen bits files t, compare_all gen bits files t [] = collect gen bits files t.
+Proof. exact compare_all_is_each_alone. Qed.
+Print Assumptions C08_compare_all_is_each_file_alone.
+
+(* ... the same verdicts (as a multiset) and the same exit status for every order of the walk *)
+Theorem C08_compare_all_order_independent :
+  forall gen bits files files' t vs, Permutation files files' -> compare_all gen bits files t [] = Ok vs ->
+  exists vs', compare_all gen bits files' t [] = Ok vs' /\ Permutation vs vs' /\
+              forall github, compare_all_status github (Ok vs') = compare_all_status github (Ok vs).
+Proof. exact compare_all_order_independent. Qed.
+Print Assumptions C08_compare_all_order_independent.
+
+(* update --all, the instantiated command (model of generate included): every regex it writes is
+   generated from the tree as it was BEFORE the run - generate never reads a rules file *)
+Theorem C08_generate_never_reads_a_rules_file :
+  forall join cfg t rf c f, is_rules_file rf -> ~ is_rules_file f ->
+  gen_in_tree join cfg (t_set t rf c) f = gen_in_tree join cfg t f.
+Proof. exact gen_in_tree_ignores_rules_files. Qed.
+Print Assumptions C08_generate_never_reads_a_rules_file.
+
+Theorem C08_update_all_generates_from_the_untouched_tree :
+  forall join cfg t,
+  cli_update_all join cfg t = update_all_frozen (gen_in_tree join cfg) parse_uint_bits t (map fst t) t.
+Proof. exact cli_update_all_generates_from_the_untouched_tree. Qed.
+Print Assumptions C08_update_all_generates_from_the_untouched_tree.
+
+(* two rules of the SAME rules file: both orders of the two updates succeed and give the same bytes,
+   provided each rewritten line still looks the same to the other rule's locator.  (Different rules
+   files: the two writes commute outright, t_set_comm.) *)
+Theorem C08_updates_of_one_rules_file_commute_partial :
+  forall c id1 k1 n1 id2 k2 n2 i1 i2 a1 a2 a3 ar b1 b2 b3 br,
+  let lines := split_on 10 c in
+  locate lines id1 k1 = Ok (Some i1) -> locate lines id2 k2 = Ok (Some i2) ->
+  rx_match (nth i1 lines []) = Some (a1, a2, a3, ar) -> rx_match (nth i2 lines []) = Some (b1, b2, b3, br) ->
+  i1 <> i2 -> ~ In 10 n1 -> ~ In 10 n2 ->
+  same_class ($"id:" ++ id2) (nth i1 lines []) (a1 ++ n1 ++ a3) ->
+  same_class ($"id:" ++ id1) (nth i2 lines []) (b1 ++ n2 ++ b3) ->
+  exists c1 c2 out,
+    update_contents c id1 k1 n1 = Ok c1 /\ update_contents c id2 k2 n2 = Ok c2 /\
+    update_contents c1 id2 k2 n2 = Ok out /\ update_contents c2 id1 k1 n1 = Ok out /\
+    out = join [10] (set_nth i1 (a1 ++ n1 ++ a3) (set_nth i2 (b1 ++ n2 ++ b3) lines)).
+Proof. exact update_contents_commute. Qed.
+Print Assumptions C08_updates_of_one_rules_file_commute_partial.
+
+Theorem C08_writes_to_different_files_commute :
+  forall t p q c d, p <> q -> t_set (t_set t p c) q d = t_set (t_set t q d) p c.
+Proof. exact t_set_comm. Qed.
+
+(* without that hypothesis the order matters: an operand that mentions the other rule's id (the C11
+   locator finding seen from C08) *)
+Theorem C08_update_order_matters_refuted :
+  let c := $"SecRule ARGS ""@rx old1"" \
+    ""id:942100,\
+    severity:'CRITICAL'""
+SecRule ARGS ""@rx old2"" \
+    ""id:942110,\
+    severity:'CRITICAL'""
+" in
+  exists c1 c2,
+    update_contents c $"942100" 0 $"id:942110" = Ok c1 /\ update_contents c $"942110" 0 $"NEW2" = Ok c2 /\
+    update_contents c1 $"942110" 0 $"NEW2" <> update_contents c2 $"942100" 0 $"id:942110".
+Proof. exact update_order_matters_refuted. Qed.
